@@ -499,6 +499,29 @@ func fixedHarmless() []mutant {
 		{Harmless: true, ID: "h-r16-C18n-fixed", Patch: "seeded/C18n-plumb-poll-helper-skipped-for-empty/fixed.diff"},
 		{Harmless: true, ID: "h-r16-C19n-fixed", Patch: "seeded/C19n-plumb-newmergedindex-deferred-close-reads-nil-result/fixed.diff"},
 		{Harmless: true, ID: "h-r16-C20n-fixed", Patch: "seeded/C20n-plumb-close-chains-to-segmentbase-close/fixed.diff"},
+		{Harmless: true, ID: "h-r21-C01r-fixed", Patch: "seeded/C01r-tidy-arrayposs-hoisted-not-reset/fixed.diff"},
+		{Harmless: true, ID: "h-r21-C02r-fixed", Patch: "seeded/C02r-tidy-range-over-uncut-scratch/fixed.diff"},
+		{Harmless: true, ID: "h-r21-C03r-fixed", Patch: "seeded/C03r-tidy-chunk-start-hoisted/fixed.diff"},
+		{Harmless: true, ID: "h-r21-C04r-fixed", Patch: "seeded/C04r-tidy-early-exit-return-for-continue/fixed.diff"},
+		{Harmless: true, ID: "h-r21-C05r-fixed", Patch: "seeded/C05r-tidy-copy-returns-zero-on-empty/fixed.diff"},
+		{Harmless: true, ID: "h-r21-C06r-fixed", Patch: "seeded/C06r-tidy-chunk-start-hoisted-again/fixed.diff"},
+		{Harmless: true, ID: "h-r21-C07r-fixed", Patch: "seeded/C07r-tidy-prealloc-clear-dropped/fixed.diff"},
+		{Harmless: true, ID: "h-r21-C08r-fixed", Patch: "seeded/C08r-tidy-excluded-helper-takes-norm-bits/fixed.diff"},
+		{Harmless: true, ID: "h-r21-C09r-fixed", Patch: "seeded/C09r-tidy-dv-flag-hoisted-out-of-field-loop/fixed.diff"},
+		{Harmless: true, ID: "h-r21-C11r-fixed", Patch: "seeded/C11r-tidy-empty-iterator-sentinel-reused/fixed.diff"},
+		{Harmless: true, ID: "h-r21-C12r-fixed", Patch: "seeded/C12r-tidy-addrforfield-commaok-folded/fixed.diff"},
+		{Harmless: true, ID: "h-r21-C13r-fixed", Patch: "seeded/C13r-tidy-clear-one-of-two-maps/fixed.diff"},
+		{Harmless: true, ID: "h-r21-C14r-fixed", Patch: "seeded/C14r-tidy-exclusion-demorgan/fixed.diff"},
+		{Harmless: true, ID: "h-r21-C14r-fixed-vectors", Patch: "seeded/C14r-tidy-exclusion-demorgan/fixed.diff", Vectors: true},
+		{Harmless: true, ID: "h-r21-C15r-fixed", Patch: "seeded/C15r-tidy-empty-vector-map-check-dropped/fixed.diff"},
+		{Harmless: true, ID: "h-r21-C15r-fixed-vectors", Patch: "seeded/C15r-tidy-empty-vector-map-check-dropped/fixed.diff", Vectors: true},
+		{Harmless: true, ID: "h-r21-C16r-fixed", Patch: "seeded/C16r-tidy-hit-helper-early-return-no-ref/fixed.diff"},
+		{Harmless: true, ID: "h-r21-C16r-fixed-vectors", Patch: "seeded/C16r-tidy-hit-helper-early-return-no-ref/fixed.diff", Vectors: true},
+		{Harmless: true, ID: "h-r21-C17r-fixed", Patch: "seeded/C17r-tidy-deferred-cleanup-shadowed-flush-err/fixed.diff"},
+		{Harmless: true, ID: "h-r21-C18r-fixed", Patch: "seeded/C18r-tidy-empty-merge-return-above-poll/fixed.diff"},
+		{Harmless: true, ID: "h-r21-C19r-fixed", Patch: "seeded/C19r-tidy-defer-free-registered-late/fixed.diff"},
+		{Harmless: true, ID: "h-r21-C19r-fixed-vectors", Patch: "seeded/C19r-tidy-defer-free-registered-late/fixed.diff", Vectors: true},
+		{Harmless: true, ID: "h-r21-C20r-fixed", Patch: "seeded/C20r-tidy-decref-guard-greater-than-one/fixed.diff"},
 		{Harmless: true, ID: "h-r19-C14q-fixed", Patch: "seeded/C14q-refac-vec-index-handle-stale-docvecmap/fixed.diff"},
 		{Harmless: true, ID: "h-r19-C16q-fixed", Patch: "seeded/C16q-refac-vec-index-handle-existing-entry-no-ref/fixed.diff"},
 		{Harmless: true, ID: "h-r19-C17q-fixed", Patch: "seeded/C17q-refac-segmentfile-owner-abort-guarded-by-closed/fixed.diff"},
